@@ -183,9 +183,19 @@ def mergeBursts : List String → Option String → List String
       else (if a.isEmpty then [] else ["w:" ++ a]) ++ (if t = "b" then mergeBursts rest (some "") else t :: mergeBursts rest none)
     | none => if t = "b" then mergeBursts rest (some "") else t :: mergeBursts rest none
 
+/-- `p:<hex>` = one TLS record of which only the first half is put on the wire; the other half follows when the peer next writes or
+    closes: for the stream the octets arrive then - behind the silences in between - or never, when nothing follows -/
+def deferHalves : List String → Option String → List String
+  | [], _ => []
+  | t :: rest, pend =>
+    if t.startsWith "p:" then
+      (match pend with | some x => ["w:" ++ x] | none => []) ++ deferHalves rest (some (t.drop 2).toString)
+    else if t = "t" then t :: deferHalves rest pend
+    else (match pend with | some x => ["w:" ++ x] | none => []) ++ t :: deferHalves rest none
+
 /-- `W:<hex>` = these octets and the end of the stream right behind them -/
 def parseEvs (ts0 : List String) : Option (List Stream.Ev) :=
-  let ts := mergeBursts ts0 none
+  let ts := mergeBursts (deferHalves ts0 none) none
   (ts.mapM fun (t : String) =>
     if t.startsWith "W:" then (ofHex (t.drop 2).toString).map fun b => [Stream.Ev.data b, Stream.Ev.eof]
     else (parseEv t).map fun e => [e]).map List.flatten
@@ -243,8 +253,17 @@ def streamSpec (args impl : List String) (tls : Bool := false) : String :=
       let want := Stream.framesOut (stream.length + 1) stream
       let wantPk := want.filterMap fun | .pkt b => some b | _ => none
       let gotPk := impl.filterMap fun t => if t.startsWith "pkt:" then ofHex (t.drop 4).toString else none
+      -- a silence that falls INSIDE a message (some of its octets have arrived, not all) ends the connection: it is not reported as the
+      -- peer having nothing to say, after which the reader would go on from the middle of the message
+      let before := Stream.dataOf (evs.takeWhile (· != .stall))
+      let whole := (Stream.framesOut (before.length + 1) before).filterMap fun | .pkt b => some b | _ => none
+      let midMsg := evs.contains .stall && (whole.map (·.length)).foldl (· + ·) 0 < before.length &&
+                       -- (and the octets that did arrive do not already show an impossible length, which ends the connection by itself)
+                       !((Stream.framesOut (before.length + 1) before).any fun | .closed c => c ≠ -1 | _ => false)
       if !(gotPk.length ≤ wantPk.length && wantPk.take gotPk.length == gotPk) then
         "bad C16:extracted-packets-are-not-a-prefix-of-the-stream's-own-framing"
+      else if midMsg && ((impl.drop 1).drop whole.length).head? == some "timeout" && gotPk.length == whole.length then
+        "bad C16:silence-inside-a-message-reported-as-an-idle-timeout"
       else if !evs.contains .stall && evs.getLast? == some .eof && !(evs.dropLast.contains .eof) then
         (if impl.contains "timeout" then "bad C16:timeout-reported-though-the-peer-never-stalled"
          else if gotPk.length ≠ wantPk.length then "bad C16:packets-of-a-complete-stream-missing"
